@@ -88,6 +88,9 @@ func headerAtoms(target string) []hdrAtom {
 		{"Content-Length: 5", "neutral", "", ""},
 		{"Content-Location: " + target, "neutral", "", ""},
 		{"X-Location: " + target, "neutral", "", ""},
+		{"Locat\u0130on: " + target, "neutral", "", ""},
+		{"Content-Type\u200b: application/activity+json", "neutral", "", ""},
+		{"\u212aontent-Type: application/activity+json", "neutral", "", ""},
 		{"Location: " + target, "loc", "", target},
 		{"location:" + target, "loc", "", target},
 	}
@@ -777,7 +780,7 @@ func clientHistories(r *ev.Report) int64 {
 
 func main() {
 	r := ev.New("C03", "model_checking",
-		"responses: full product of status-line atoms (2 versions x 17 codes x with/without reason, 8 malformed, 10 exotic) x all header-line sequences of length <=2 over 29 atoms "+
+		"responses: full product of status-line atoms (2 versions x 17 codes x with/without reason, 8 malformed, 10 exotic) x all header-line sequences of length <=2 over 32 atoms "+
 			"(tolerated/foreign/malformed Content-Types, confusable header names, Location, header lines longer than a 4096-byte read buffer whose tail at and around the buffer boundary reads like a Content-Type or Location) x 14 bodies x 2 tolerated sets, classified must-accept / must-reject / unspecified by a reference written from the statement; "+
 			"redirect graphs: chains of every length around each budget (jtp.Get budgets 0..3, client.FetchURL budget 20) in 5 Location styles, cycles of length 1..3, 7 kinds of bad hop at each position; "+
 			"entry points: every sequence of <=3 operations over client.FetchURL on documents of five declared types and a webfinger lookup, cache emptied before each, compared with the operation on its own; histories: explicit-state search over fetch sequences (16 URLs: documents, relative and absolute redirects, 404, cycle, chain longer than the budget and its suffixes, the same host and path under http and a redirect to it, fragment and :443 variants, a redirecting URL with a fragment) for cache sizes 1,2,3,128, "+
